@@ -473,6 +473,10 @@ def uncovered_pd_path(
         if not _potentially_directed_edge(graph, u, second_node, force_circle):
             return uncov_pd_path, found_uncovered_pd_path
 
+        # the second node may already be the end of the path
+        if second_node == c:
+            return [u, c], True
+
     # now add 'a' to the queue and begin exploring
     # adjacent nodes that are connected with bidirected edges
     path = deque([start_node])
